@@ -105,7 +105,7 @@ func c05Gen(seed uint64, i int) *c05Case {
 	for k := 0; k < nw; k++ {
 		switch rng.Intn(7) {
 		case 0:
-			cs.with = append(cs.with, gen.WithItem{Kind: "str", S: []string{"", "X", "<>", "a\nb", "-", "'", "%", "%d=%s", "100%%", "\\", "\"q\"", "$1 \\0"}[rng.Intn(12)]})
+			cs.with = append(cs.with, gen.WithItem{Kind: "str", S: []string{"", "X", "<>", "a\nb", "-", "'", "%", "%d=%s", "100%%", "\\", "\"q\"", "$1 \\0"}[rng.Intn(12)], Caseless: rng.Chance(1, 5)})
 		case 1, 2:
 			cs.with = append(cs.with, gen.WithItem{Kind: "var", S: caps[rng.Intn(len(caps))]})
 		case 3:
